@@ -24,6 +24,12 @@ PIPETTING = {"A", "D", "R", "B;Aspirate", "B;Dispense"}
 
 def run(ctx) -> None:
     ctx.guard("C03.check-before-emit", check_before_emit)
+    # the tracking calls are only a check if they reject: limit guards + NaN-rejecting non-negativity (shared with C02)
+    from . import c02
+
+    for kind in ("add", "remove"):
+        ctx.reuse("C03.tracking-rejects", c02.guard, kind)
+        ctx.reuse("C03.tracking-rejects", c02.nonneg, kind)
     ctx.guard("C03.step-guard", step_guard_validator)
     ctx.guard("C03.step-guard", step_guard_wiring)
     ctx.guard("C03.step-guard", step_guard_evo)
@@ -306,7 +312,7 @@ def exit_saves(ctx, rule: str) -> None:
             ctx.rep.check(None if saves else False, rule, c + "/save", "", f"expected exactly one save() call in __exit__, found {len(saves)}", where=f.where())
             continue
         sv = saves[0]
-        tests = [d for d in fv.cfg.dominators()[sv.node] if fv.cfg.nodes[d].kind == "test"]
+        tests = [d for d, _ in fv.controlling(sv.node)]
         ok = True
         detail = ""
         selfn = f.params[0]
